@@ -204,6 +204,57 @@ fn onj(n: Option<FeelNumber>) -> J {
 }
 
 /// Direct FeelNumber API. {"op":"num","f":"add","a":[text...]}
+/// The same `num` requests evaluated alone (one after another) and then by several threads at once: {"reqs":[num request...],
+/// "threads":n, "rounds":r}. Every thread evaluates every request `r` times (each thread starts at another position); the answer lists
+/// the requests whose concurrent result (or whose result alone AFTER the threads ended) differs from the result alone before.
+pub fn op_numpar(req: &J) -> J {
+  let empty = vec![];
+  let reqs: Vec<J> = req.get("reqs").and_then(|x| x.as_array()).unwrap_or(&empty).clone();
+  let threads = req.get("threads").and_then(|x| x.as_u64()).unwrap_or(4).max(1) as usize;
+  let rounds = req.get("rounds").and_then(|x| x.as_u64()).unwrap_or(10) as usize;
+  let before: Vec<String> = reqs.iter().map(|r| op_num(r).to_string()).collect();
+  let mismatches = std::sync::Mutex::new(Vec::<J>::new());
+  let started = std::sync::atomic::AtomicUsize::new(0);
+  std::thread::scope(|sc| {
+    for t in 0..threads {
+      let reqs = &reqs;
+      let before = &before;
+      let mismatches = &mismatches;
+      let started = &started;
+      sc.spawn(move || {
+        started.fetch_add(1, std::sync::atomic::Ordering::SeqCst);
+        let mut spins = 0u64;
+        while started.load(std::sync::atomic::Ordering::SeqCst) < threads && spins < 50_000_000 {
+          std::hint::spin_loop();
+          spins += 1;
+        }
+        let n = reqs.len();
+        for round in 0..rounds {
+          for k in 0..n {
+            let i = (k + t * 7 + round) % n;
+            let got = std::panic::catch_unwind(|| op_num(&reqs[i]).to_string()).unwrap_or_else(|_| "\"panic\"".to_string());
+            if got != before[i] {
+              if let Ok(mut m) = mismatches.lock() {
+                if m.len() < 20 {
+                  m.push(json!({"i": i, "alone": before[i], "concurrent": got, "thread": t, "round": round}));
+                }
+              }
+            }
+          }
+        }
+      });
+    }
+  });
+  let mut out = mismatches.into_inner().unwrap_or_default();
+  for (i, r) in reqs.iter().enumerate() {
+    let again = op_num(r).to_string();
+    if again != before[i] && out.len() < 40 {
+      out.push(json!({"i": i, "alone": before[i], "alone_afterwards": again}));
+    }
+  }
+  json!({"mismatches": out, "evaluations": reqs.len() * (threads * rounds + 2)})
+}
+
 pub fn op_num(req: &J) -> J {
   let f = s(req, "f");
   let empty = vec![];
